@@ -59,6 +59,20 @@ Theorem C27_cache_transparent : forall compute evs cache,
 Proof. exact exec_correct. Qed.
 Print Assumptions C27_cache_transparent.
 
+(* The source keys the cache by the full tenant name (m.cache[tenant], read from the
+   source); histories are arbitrary event lists over arbitrarily many tenants. A cache
+   that finds entries through a slot (hash) of the name without comparing names is
+   NOT transparent: two tenants with different routes sharing a slot are enough. *)
+Theorem C27_cache_keyed_by_tenant : cache_key_is_tenant = true.
+Proof. exact cache_key_is_tenant_true. Qed.
+Print Assumptions C27_cache_keyed_by_tenant.
+
+Theorem C27_slot_cache_refuted : forall compute slot t1 t2 i,
+  slot t1 = slot t2 -> compute t1 = RIdx i -> compute t2 <> RIdx i ->
+  exists r, In (t2, r) (exec_gen compute false slot [] [Lookup t1; Store t1; Lookup t2]) /\ r <> compute t2.
+Proof. exact slot_cache_misroutes. Qed.
+Print Assumptions C27_slot_cache_refuted.
+
 Theorem C27_store_guarded : store_guarded = true /\ err_aborts = false.
 Proof. exact (conj store_guarded_true err_aborts_false). Qed.
 Print Assumptions C27_store_guarded.
